@@ -61,7 +61,9 @@ def cases(ctx):
     # (N up to 150: retry counters, back-off, give-up thresholds), then the link works again and the next rejected message
     # must be followed by a request
     for version in VERSIONS[2:]:
-        for failures in (4, 9, 10, 11, 16, 20, 33, 64, 100, ctx.pick(128, 150)):
+        from .. import codedict
+
+        for failures in sorted({*range(1, 34), *codedict.thresholds([64, 100, ctx.pick(128, 150)], low=2, cap=ctx.pick(300, 2000))}):
             for who in ("one-node", "two-nodes"):
                 if not ctx.mine():
                     continue
